@@ -97,10 +97,35 @@ def outcome(fn):
 SEED = 0
 
 
+def _t(*texts):
+    """token list from texts (types read off the texts)"""
+    kinds = {":": "COLUMN", "-": "MINUS", "+": "PLUS", "(": "LPAREN", ")": "RPAREN", "[": "LBRACKET", "{": "LBRACKET", "]": "RBRACKET", "}": "RBRACKET",
+             "AND": "AND_OP", "OR": "OR_OP", "NOT": "NOT", "TO": "TO", "<": "LESSTHAN", "<=": "LESSTHAN", ">": "GREATERTHAN", ">=": "GREATERTHAN"}
+    out = []
+    for x in texts:
+        k = kinds.get(x) or ("PHRASE" if x[:1] == '"' else "REGEX" if x[:1] == "/" else "APPROX" if x[:1] == "~" else "BOOST" if x[:1] == "^" else "TERM")
+        out.append((k, x))
+    return out
+
+
+#: intended token lists whose texts meet without a blank in the minimal layout: signs, digits and colons next to each other, keywords
+#: glued to brackets, signed phrases as range bounds, a time expression next to other colons
+PROBES = [_t("x-10", ":", "30"), _t("a+05", ":", "45"), _t("level-10", ":", "20", "OR", "b"), _t("utf-16", ":", "42"), _t("a", "-", "10", ":", "30"),
+          _t("NOT", "[", "a", "TO", "b", "]"), _t("x", "AND", "{", "a", "TO", "b", "]"), _t("x", "OR", "[", "1", "TO", "2", "]"), _t("price", ":", "[", "1", "TO", "5", "]", "OR", "[", "7", "TO", "9", "]"),
+          _t("[", "-", '"a"', "TO", "b", "]"), _t("[", '"a"', "TO", "-", '"b"', "}"), _t("f", ":", "{", "-", '"1 000"', "TO", "-", '"10"', "]"), _t("x", "AND", "[", "-", '"5"', "TO", "5", "]"),
+          _t("2020-01-01T10:30:00"), _t("2020-01-01T10:30:00+02", ":", "00"), _t("d", ":", "2020-01-01T10:30", "OR", "t12", ":", "30"), _t("NOT", "(", "a", ")", "AND", "(", "b", ")"),
+          _t("TO", "^2"), _t("TO", ":", "x"), _t("a", "TO", "b"), _t("[", "TO", "TO", "TO", "]"), _t("+", "-", "a"), _t("a", "^2", "^3", "~1"), _t('"p"', "~2", "^3", "x"),
+          _t("<", "a"), _t("<=", '"a b"', "OR", ">", "1"), _t("f", ":", "<", "5", "g", ":", ">=", "x")]
+
+
 def check(item):
     idx, seq = item
     rnd = random.Random(SEED * 104729 + idx)
-    toks = pieces(seq, idx % 3)
+    if seq and isinstance(seq[0], tuple):
+        toks = list(seq)
+        seq = tuple(t for t, _ in toks)
+    else:
+        toks = pieces(seq, idx % 3)
     fails = []
     trees = []
     n = 0
@@ -121,7 +146,7 @@ def check(item):
             if not (real[1] == ref[1]) or TR.fingerprint(real[1]) != TR.fingerprint(ref[1]):
                 fails.append({"input": q, "types": list(seq), "signature": "structure",
                               "observation": "real %r, expected %r" % (real[1], ref[1])})
-    if any(t in TRICKY for t in seq):
+    if any(t in TRICKY for t in seq) and toks == pieces(seq, idx % 3):
         tt = pieces_tricky(seq, idx)
         q = join(tt, idx % 2, rnd)
         n += 1
@@ -177,13 +202,13 @@ def main():
              ("LPAREN", "TERM", "OR_OP", "TERM", "RPAREN", "AND_OP", "NOT", "LPAREN", "TERM", "TERM", "RPAREN", "BOOST")]
     deep = [d for d in deep if d not in set(seqs)]
     allseqs = seqs + extra + deep
-    res = pmap(check, list(enumerate(allseqs)))
+    res = pmap(check, list(enumerate(allseqs + [tuple(pr) for pr in PROBES])))
     failures = [f for r in res for f in r[1]]
     rest, hit = classify(failures, p.get("known", []), {"lr_prefers_prefix_over_and_or": lr_prefers_prefix_over_and_or})
     emit({"ok": not rest, "evaluations": sum(r[0] for r in res), "distinct_nontrivial": len([s for s in allseqs if len(s) > 2]),
           "rule": "every token-type sequence of <= %d tokens accepted by the live LALR automaton (DFS over parser configurations) + %d "
-                  "sequences one token beyond the frontier that the reference accepts + %d hand-picked longer ones; two whitespace layouts each (minimal / seeded "
-                  "mixed blanks); distinct = sequences of more than 2 tokens" % (N, len(extra), len(deep)),
+                  "sequences one token beyond the frontier that the reference accepts + %d hand-picked longer ones + %d intended token lists whose texts meet without a blank; two whitespace layouts each (minimal / seeded "
+                  "mixed blanks); distinct = sequences of more than 2 tokens" % (N, len(extra), len(deep), len(PROBES)),
           "bound": "token sequences of length <= %d" % N,
           "samples": [{"types": list(allseqs[len(allseqs) // 2]), "query": join(pieces(allseqs[len(allseqs) // 2], 0), 0, random.Random(0))}],
           "failures": rest[:40], "known": hit, "known_covered": len(failures) - len(rest)})
